@@ -92,8 +92,12 @@ def ortools_direct(s):
 
 
 def ecos_direct(s):
+    mi = {}
     if not np.all(s['vtype'] == 'C'):
-        return None
+        # ECOS_BB, with the same wall-clock cap as the proxy; a run that ends at the cap proves nothing
+        mi = {'bool_vars_idx': [int(j) for j in np.where(s['vtype'] == 'B')[0]],
+              'int_vars_idx': [int(j) for j in np.where(s['vtype'] == 'I')[0]],
+              'mi_max_iters': W.ECOS_MI_CAP, 'mi_verbose': False}
     n = s['A'].shape[1]
     eq = s['sense'] == 1
     rows = [s['A'][~eq]]
@@ -117,7 +121,9 @@ def ecos_direct(s):
     hh = np.concatenate(h)
     A = sp.csc_matrix(s['A'][eq]) if eq.any() else None
     b = s['b'][eq] if eq.any() else None
-    sol = W.REAL['ecos'](s['obj'], G, hh, {'l': nl, 'q': qd, 'e': len(s['xmat'])}, A, b, verbose=False)
+    sol = W.REAL['ecos'](s['obj'], G, hh, {'l': nl, 'q': qd, 'e': len(s['xmat'])}, A, b, verbose=False, **mi)
+    if mi and int(sol['info'].get('mi_iter', 0)) >= W.ECOS_MI_CAP - 1:
+        return None
     return float(sol['info']['pcost']) if sol['info']['exitFlag'] in (0, 10) else None
 
 
